@@ -106,4 +106,12 @@ CHECKS = {
                             "the process can die (and a reader can look) only between file-system operations; power loss without fsync is outside the property"],
             "runs": [{"pkg": S, "harness": ["harness/store"], "entry": "VerifC09Store", "quick": {"saves": 2, "chunks": 3}, "thorough": {"saves": 3, "chunks": 3},
                       "reach": ["published", "save-ok", "save-failed", "end"]}]},
+    "C14": {"prefixes": ["C14."],
+            "assumptions": ["contract J (trusted, not executed): jwtauth.Verifier(ja) followed by jwtauth.Authenticator answers 401 and does not call the next handler unless the request carries a token that verifies under ja's algorithm and key and is currently valid (jwx: HMAC-SHA256, JSON, base64 are out of the solver's reach)",
+                            "the real chi router is executed (Mux.Use/Group/Route/Mount/handle, radix tree insertion, Routes(), ChainHandler); net/http serving is not",
+                            "app wiring is read statically from SSA: the algorithm constant passed to jwtauth.New"],
+            "runs": [{"pkg": "github.com/Flowpack/prunner/server", "harness": ["harness/server"], "entry": "VerifC14Routes", "quick": {}, "thorough": {},
+                      "flags": {"init": "github.com/go-chi/chi/v5", "loop-cap": 5000}, "reach": ["profiling-on", "profiling-off", "six-api-routes"]},
+                     {"pkg": "github.com/Flowpack/prunner/config", "harness": ["harness/config"], "entry": "VerifC14Config", "quick": {}, "thorough": {}, "reach": ["accepted", "rejected"], "replay": "harness"},
+                     {"pkg": "github.com/Flowpack/prunner/app", "harness": ["harness/app"], "entry": "VerifC14App", "quick": {}, "thorough": {}, "reach": ["checked"]}]},
 }
